@@ -202,6 +202,26 @@ func checkFraming(p *Prog, r *Report) {
 					}
 				}
 			})
+			// the same two bytes read with binary.BigEndian.Uint16(peeked[2:]) (no intermediate buffer, no error path)
+			if peek != nil && !be {
+				for _, ex := range extractOf(peek, 0) {
+					for _, ref := range refs(ex) {
+						sl, ok := ref.(*ssa.Slice)
+						if !ok {
+							continue
+						}
+						lo, okLo := constInt(sl.Low)
+						if !okLo || lo != 2 {
+							continue
+						}
+						for _, r2 := range refs(sl) {
+							if c2, ok := r2.(*ssa.Call); ok && calleeName(&c2.Call) == "(encoding/binary.bigEndian).Uint16" {
+								be = true
+							}
+						}
+					}
+				}
+			}
 			r.Check(peekOK && offOK && be && consumes == "", "R-FRAME.length", fnKey(lenFn)+": message length from the header", p.pos(lenFn.Pos()),
 				"Peek(4) (non-consuming), big-endian uint16 at offset 2, nothing else touches the reader",
 				fmt.Sprintf("the length function is not 'Peek(4), big-endian uint16 at offset 2, no consumption' (peek4=%v offset2=%v bigEndianU16=%v consuming call=%q): messages are framed at the wrong boundary", peekOK, offOK, be, consumes), true)
